@@ -15,7 +15,7 @@ import (
 func init() { register("C04", true, checkC04) }
 
 func checkC04(p *Prog, r *Report) {
-	r.Explain("POOL-RESET: on every path from a sync.Pool Get the first use of the object is a reset (bufio.Reader.Reset or a method storing only constants into the bookkeeping fields); pixel pools have no reset and are delegated to SIZEG (the exact-size guard that makes the converters overwrite every element). POOL-UAR: no use of a pooled object (or of the owner's field holding it) reachable after a non-deferred Put/Close. GLOB-W: every write to package-level state on a decode/hash path is enumerated; only sync.Pool traffic and key-determined cache inserts are accepted. STALE: reads of the pooled tag array are bounded by the count this call wrote. ESC: no pooled memory flows into a result. This decides the mechanisms through which history can leak, not equality of results across histories.")
+	r.Explain("POOL-RESET: on every path from a sync.Pool Get the first use of the object is a reset (bufio.Reader.Reset or a method storing only constants into the bookkeeping fields); pixel pools have no reset and are delegated to SIZEG (the exact-size guard) and FILL (every gray converter writes dst[row*w+col] on every iteration of a 0..w x 0..w loop nest, so no element keeps an earlier image's data). POOL-UAR: no use of a pooled object (or of the owner's field holding it) reachable after a non-deferred Put/Close. GLOB-W: every write to package-level state on a decode/hash path is enumerated; only sync.Pool traffic and key-determined cache inserts are accepted. STALE: reads of the pooled tag array are bounded by the count this call wrote. ESC: no pooled memory flows into a result. This decides the mechanisms through which history can leak, not equality of results across histories.")
 	r.Trusted("sync.Pool hands an object to one goroutine at a time", "bufio.Reader.Reset discards all buffered state")
 	rulePoolReset(p, r)
 	rulePoolUAR(p, r, "C04")
@@ -23,6 +23,8 @@ func checkC04(p *Prog, r *Report) {
 	r.Floor("POOL-OWN", 6)
 	ruleGlobW(p, r)
 	ruleSizeG(p, r)
+	ruleFill(p, r)
+	r.Floor("FILL", 4)
 	ruleStale(p, r)
 	ruleEsc(p, r)
 	r.Floor("POOL-RESET", 8)
